@@ -1,3 +1,4 @@
+import Fpdec.Kernels.DecOps
 import Fpdec.Kernels.DecMul
 import Fpdec.Kernels.WideFits
 import Fpdec.Kernels.Wide
@@ -244,5 +245,13 @@ theorem kernel_i128_mul_div_ten_pow_rounded (prof : Profile) (tm : Mode) (x y : 
 theorem kernel_checked_mul_rounded (prof : Profile) (tm : Mode) (x y : Dec) (n : Nat) (hn : n < 256) :
     Gen.K.checked_mul_rounded prof tm x y n = checkedMulRounded prof tm x y n :=
   Kernels.checked_mul_rounded_eq prof tm x y n hn
+
+/-- the Decimal-by-Decimal operator bodies of mul.rs, checked_mul.rs and mul_rounded.rs, as translated on this run -/
+theorem kernel_decimal_mul (prof : Profile) (tm : Mode) (x y : Dec) : Gen.K.decimal_mul prof tm x y = mul prof tm x y :=
+  Kernels.decimal_mul_eq prof tm x y
+theorem kernel_decimal_checked_mul (prof : Profile) (x y : Dec) : Gen.K.decimal_checked_mul prof x y = checkedMul prof x y :=
+  Kernels.decimal_checked_mul_eq prof x y
+theorem kernel_decimal_mul_rounded (prof : Profile) (tm : Mode) (x y : Dec) (n : Nat) (hn : n < 256) :
+    Gen.K.decimal_mul_rounded prof tm x y n = mulRounded prof tm x y n := Kernels.decimal_mul_rounded_eq prof tm x y n hn
 
 end Fpdec.Props.C02
